@@ -86,6 +86,27 @@ Definition clamp (f : float) : float :=
   else if PrimFloat.ltb one f then one
   else f.
 
+(* ---------- fParams.Max()/Min() of a step-varying parameter (promql/value.go newFParams) ----------
+   maxValue starts at -math.MaxFloat64 and is folded with math.Max, minValue starts at
+   math.MaxFloat64 and is folded with math.Min (Go's special cases: +Inf/-Inf win over NaN,
+   NaN otherwise propagates, Max(+0,-0) = +0, Min(-0,+0) = -0). *)
+Definition max_float64 : float := 0x1.fffffffffffffp1023%float.
+
+Definition go_max (x y : float) : float :=
+  if PrimFloat.eqb x infinity || PrimFloat.eqb y infinity then infinity
+  else if PrimFloat.is_nan x || PrimFloat.is_nan y then nan
+  else if PrimFloat.eqb x zero && PrimFloat.eqb y zero then (if PrimFloat.get_sign x then y else x)
+  else if PrimFloat.ltb y x then x else y.
+
+Definition go_min (x y : float) : float :=
+  if PrimFloat.eqb x neg_infinity || PrimFloat.eqb y neg_infinity then neg_infinity
+  else if PrimFloat.is_nan x || PrimFloat.is_nan y then nan
+  else if PrimFloat.eqb x zero && PrimFloat.eqb y zero then (if PrimFloat.get_sign x then x else y)
+  else if PrimFloat.ltb x y then x else y.
+
+Definition params_max (fs : list float) : float := fold_left go_max fs (PrimFloat.opp max_float64).
+Definition params_min (fs : list float) : float := fold_left go_min fs max_float64.
+
 Section Engine.
   (* L = label sets; hash = labels.Labels.Hash (xxhash), an oracle tabulated by the harness.
      A series is a label set plus whatever else it carries (value, histogram, position in
@@ -107,7 +128,25 @@ Section Engine.
     if PrimFloat.eqb f zero then Selected []
     else if PrimFloat.is_nan f then ErrNaN
     else Selected (filter (fun s => selects (clamp f) (fst s)) v).
+  (* ---------- range queries: one ratio per step (fParams with a non-constant parameter) ----------
+     rangeEvalAgg:  if params.Max() == 0 && params.Min() == 0 { return nil }   (whole range empty)
+                    if params.HasAnyNaN() { error }
+                    for each step: fParam := params.Next(); aggregationK(fParam, ...)
+     aggregationK:  fParam == 0 -> nothing for this step; otherwise the clamped ratio filters
+                    the samples present at the step. *)
+  Definition step_select (f : float) (v : list (L * P)) : list (L * P) :=
+    if PrimFloat.eqb f zero then [] else filter (fun s => selects (clamp f) (fst s)) v.
+
+  Inductive range_result := RSelected (steps : list (list (L * P))) | RErrNaN.
+
+  Definition limit_ratio_range (fs : list float) (vs : list (list (L * P))) : range_result :=
+    if PrimFloat.eqb (params_max fs) zero && PrimFloat.eqb (params_min fs) zero
+    then RSelected (map (fun _ => []) vs)
+    else if existsb PrimFloat.is_nan fs then RErrNaN
+    else RSelected (map (fun fv => step_select (fst fv) (snd fv)) (combine fs vs)).
 End Engine.
 
 Arguments Selected {L P} _.
 Arguments ErrNaN {L P}.
+Arguments RSelected {L P} _.
+Arguments RErrNaN {L P}.
